@@ -143,6 +143,7 @@ AbstractPre(x) ==
          wd |-> [a \in as |-> IF a = "S" /\ x.setup.wd["S"] = "W" THEN "W" ELSE a],
          grants |-> [g \in as |-> [e \in as \ {g} |-> [t \in StakeTypes |-> gr(g, e, t)]]],
          grantVals |-> [g \in as |-> [e \in as \ {g} |-> [t \in StakeTypes |-> gv(g, e, t)]]],
+         grantExp |-> [g \in as |-> [e \in as \ {g} |-> [t \in StakeTypes |-> "-"]]],
          storage |-> IF cs = {} THEN [c \in {"_"} |-> [k \in {"_"} |-> 0]]
                      ELSE [c \in cs |-> [k \in {p[2] : p \in {q \in sl : q[1] = c}} |-> 0]],
          nonce |-> [a \in as |-> "3"],
@@ -167,8 +168,8 @@ Next == /\ sc = None
              /\ PrintT(<<"SCRIPT", ToJson(x)>>)
 Spec == Init /\ [][Next]_vars
 
-ModelDiff(x) == LET e == ModelRun(x) IN DiffFields([f \in DOMAIN e.post \ {"grantVals"} |-> e.post[f]],
-                                                    [f \in DOMAIN e.post \ {"grantVals"} |-> Ideal(e).st[f]])
+ModelDiff(x) == LET e == ModelRun(x) IN DiffFields([f \in DOMAIN e.post \ {"grantVals", "grantExp"} |-> e.post[f]],
+                                                    [f \in DOMAIN e.post \ {"grantVals", "grantExp"} |-> Ideal(e).st[f]])
 \* the model satisfies P in every scenario (holds for the intended design, Defects = {})
 Strict == sc = None \/ ModelDiff(sc.x) = {}
 \* with the known defects, P can fail only where a precompile call is involved
